@@ -13,8 +13,11 @@ UNSIGNED = ['uint8', 'uint16', 'uint32', 'uint64']
 
 
 class SchemaGen:
-	def __init__(self, rng):
+	def __init__(self, rng, variant=None):
 		self.rng = rng
+		# `variant` walks systematically through the combinations that matter for array framing (container kind x padding
+		# spelling) and conditional placement, so that a run of a dozen schemas covers each of them at least once
+		self.variant = variant
 		self.lines = []
 		self.counter = 0
 		self.int_aliases = []
@@ -184,7 +187,7 @@ class SchemaGen:
 
 	def conditional_struct(self):
 		name = self.fresh('Cond')
-		if self.rng.random() < 0.5:
+		if (self.rng.random() < 0.5) if self.variant is None else (0 == self.variant % 2):
 			# discriminant first
 			plain = [entry for entry in self.enums if not entry[2]]
 			if plain:
@@ -252,10 +255,13 @@ class SchemaGen:
 		self.features.add('factory' + ('-two-part' if two_part else ''))
 
 		container = self.fresh('Batch')
-		mode = self.rng.randrange(3)
+		mode = self.rng.randrange(3) if self.variant is None else self.variant % 3
 		lines = ['@size(size)', '@is_aligned', f'struct {container}', '\tsize = uint32', f'\tstamp = {self.rng.choice(INT_TYPES)}']
 		if 0 == mode:
-			lines += ['\tpayload_size = uint32', '\t@is_byte_constrained', f'\t@alignment({self.rng.choice([4, 8])})', f'\tentities = array({base}, payload_size)']
+			qualifier = self.rng.choice(['', '', ', pad_last', ', not pad_last']) if self.variant is None else ['', ', not pad_last', ', pad_last'][(self.variant // 3) % 3]  # every spelling of the padding rule, also on byte-sized arrays
+			lines += ['\tpayload_size = uint32', '\t@is_byte_constrained', f'\t@alignment({self.rng.choice([4, 8])}{qualifier})', f'\tentities = array({base}, payload_size)']
+			if 'not' in qualifier:
+				self.features.add('sized-aligned-array-not-pad-last')
 			if self.leaf_structs:
 				lines.append(f'\trest = array({self.rng.choice(self.leaf_structs)[0]}, __FILL__)')
 			self.features.add('sized-aligned-array')
@@ -281,11 +287,11 @@ class SchemaGen:
 			self.leaf_struct()
 		for _ in range(self.rng.randrange(1, 4)):
 			self.variable_struct()
-		if self.rng.random() < 0.6:
+		if self.variant is not None or self.rng.random() < 0.6:
 			self.size_prefixed()
-		if self.rng.random() < 0.7:
+		if self.variant is not None or self.rng.random() < 0.7:
 			self.conditional_struct()
-		if self.rng.random() < 0.7:
+		if self.variant is not None or self.rng.random() < 0.7:
 			self.factory()
 		if self.rng.random() < 0.5:
 			self.variable_struct()
